@@ -18,19 +18,20 @@ concatenated run includes the later inputs: `return 5` / `7` answers 7 increment
 by design; a trailing `for` stops at the eval-up-to special case before its body runs — finding
 C11/trailing-for-not-run).
 
-PROVED (`_partial`): the core of the first half of the proof idea, **definition monotonicity** at the level
-of one `eval_expr` dispatch — `dispatch_mono_partial`: a dispatch that neither fails nor crashes under
-program `p` does exactly the same under any `p'` that adds FUNCTION definitions with fresh names
-(`ext_of_fresh`, with `freshFuns` the decidable freshness predicate; variable lookup `getVar_mono`, pattern
-lookup `matchCases_mono`, function lookup and `string_repr` in `evalCall_mono`, `display_ext`). This is
-what makes "load the later inputs' definitions first" unobservable to the earlier inputs. MISSING:
-(a) lifting it through `step` / `eval` (mechanical: `step` uses the program only through `dispatch`);
-(b) the same for added ENUM definitions (needs the invariant that every enum value on the stacks has a
-defined type, so that `display` / `variantName` agree); (c) the sequencing half: frame 0's pending
+PROVED (`_partial`): the first half of the proof idea, **definition monotonicity**, through all three
+levels — `dispatch_mono_partial` (one `eval_expr` dispatch), `step_mono` (one loop iteration) and
+`eval_mono_partial`: an evaluation that ends with a value under program `p` ends with the same value,
+after the same number of steps, in the same state, under any `p'` that adds FUNCTION definitions with
+fresh names (`ext_of_fresh`, with `freshFuns` the decidable freshness predicate; variable lookup
+`getVar_mono`, pattern lookup `matchCases_mono`, function lookup and `string_repr` in `evalCall_mono`,
+`display_ext`); `request_defs_upfront_partial` instantiates it for one `run` request. This is what makes
+"load the later inputs' definitions first" unobservable to the earlier inputs. MISSING:
+(a) the same for added ENUM definitions (needs the invariant that every enum value on the stacks has a
+defined type, so that `display` / `variantName` agree); (b) the sequencing half: frame 0's pending
 entries of the concatenated run = the current input's entries ++ the later inputs' entries, and
-`dispatch` is parametric in that tail except for `return` / `break` / `continue`; (d) gluing the two
-over `incremental`. (a)–(d) are exercised by the harness only (model `session_run`, both replies, vs
-real sessions).
+`dispatch` is parametric in that tail except for `return` / `break` / `continue`; (c) gluing the two
+over `incremental`. (a)–(c) are exercised by the harness only (model `c11_session_run`, both replies,
+vs real sessions).
 -/
 set_option linter.unusedVariables false
 set_option linter.unusedSimpArgs false
